@@ -5867,7 +5867,7 @@ impl<'a> Tyck<'a> for TyEnvT<su::TermId> {
                     std::panic::Location::caller(),
                 )?;
                 let (binder, binder_ty) = {
-                    let ss::Type::App(ret_app_body_ty) = tycker.type_filled_k(&binder_ty)? else {
+                    let Some(body_ty) = binder_ty.destruct_thk_app(tycker) else {
                         tycker.err_k(
                             TyckError::TypeExpected {
                                 expected: "a thunk type `Thk _`".to_string(),
@@ -5876,7 +5876,6 @@ impl<'a> Tyck<'a> for TyEnvT<su::TermId> {
                             std::panic::Location::caller(),
                         )?
                     };
-                    let ss::App(_ret_ty, body_ty) = ret_app_body_ty;
                     (binder, body_ty)
                 };
                 let body_out_ann = TyEnvT::new(binder_elaboration.info.clone(), body)
